@@ -22,7 +22,7 @@ func accumulators(fn *ssa.Function, name string) []*ssa.BinOp {
 		if !ok || b.Op.String() != "+" {
 			return
 		}
-		if ph, ok := b.X.(*ssa.Phi); ok && ph.Comment == name {
+		if ph, ok := b.X.(*ssa.Phi); ok && ir.LocalName(ph.Parent(), ph.Comment) == name {
 			out = append(out, b)
 		}
 	})
@@ -420,7 +420,7 @@ func verifyCommitTally(c C) {
 	// the only start value of the tally is 0
 	for _, b := range fn.Blocks {
 		for _, in := range b.Instrs {
-			if ph, ok := in.(*ssa.Phi); ok && ph.Comment == "talliedVotingPower" {
+			if ph, ok := in.(*ssa.Phi); ok && ir.LocalName(ph.Parent(), ph.Comment) == "talliedVotingPower" {
 				for _, e := range ph.Edges {
 					s := ir.Render(e)
 					okE := s == "0" || strings.HasPrefix(s, "φ:talliedVotingPower") || strings.HasPrefix(s, "(φ:talliedVotingPower + ")
